@@ -21,11 +21,14 @@ ENCODED = [
     "elexmodel.handlers.data.PreprocessedData:PreprocessedDataHandler.load_data",
     "elexmodel.client:ModelClient.get_estimates",
 ]
-STUBS = ["none for the eligibility harness (no model is run); the end-to-end cases use the pipeline stubs"]
+STUBS = ["none for the eligibility harness (no model is run); the end-to-end cases use the pipeline stubs",
+         "outlier cases: CombinedDataHandler._fit_outlier_detection_model returns an explorer-chosen subset of the reporting units"]
 ASSUMES = ["vote counts and baselines are integers in [0, 1e7] (baseline 0 allowed), dem + gop <= turnout",
            "expected vote, reporting threshold and turnout-factor limits are arbitrary reals (0 <= pev <= 120, 0 < thr <= 100, "
            "0 < lower < upper)"]
-OUTSIDE = ["the two outlier models (need > 20 reporting units and an LP solve inside the eligibility code)",
+OUTSIDE = ["the numerics of the two outlier models (which units they flag): their LP fit is replaced by an arbitrary flagged subset and "
+           "their 20-unit minimum is lowered in the 'outlier' cases, so only the plumbing around them (categories, first reason wins, "
+           "no duplicates) is covered",
            "non-integer baselines within 1e-8 of zero", "more than 3 units at once"]
 BOUNDS = {"quick": "2 fully symbolic units: unit A ranges over every structural option {baseline+feed, feed only, baseline only} x "
                    "{unit-blocklisted} x {state-blocklisted}, unit B in baseline and feed; all values symbolic incl. threshold and limits; policies drop/zero; "
@@ -53,6 +56,12 @@ def cases(tier):
                 nm = "|".join("%s%s%s%s" % ("B" if c[0] else "-", "F" if c[1] else "-", "x" if c[2] else "-", c[3][0]) for c in combo)
                 out.append(dict(name="units_%s_%s_%s" % ("+".join(ests), policy, nm), kind="units", estimands=ests, policy=policy,
                                 structs=[list(c) for c in combo], weight=len(ests)))
+    # outlier models: the LP fit inside them is replaced by "any subset of the reporting units may be flagged" (explorer-chosen),
+    # and the 20-unit minimum is lowered so that they run on 2 units
+    for ests in (["turnout"], ["margin"]):
+        for on in ((True, True), (True, False), (False, True)):
+            out.append(dict(name="outlier_%s_t%d_m%d" % ("+".join(ests), on[0], on[1]), kind="outlier", estimands=ests, policy="drop",
+                            structs=[list(plain), list(plain)], fit_turnout=on[0], fit_margin=on[1], weight=3))
     for lo in (0, 0.5, 0.25):
         out.append(dict(name="client_limits_lo%s" % lo, kind="client", tf_lo=lo, tf_hi=2.0, weight=20))
     out.append(dict(name="client_limits_hi3", kind="client", tf_lo=0.5, tf_hi=3.0, weight=20))
@@ -109,7 +118,23 @@ def run(ctx, case):
     pre = PreprocessedDataHandler("E", "G", "county", ests, baselines, data=pre).data
     data = CombinedDataHandler(pre, cur, ests, "county", handle_unreporting=case["policy"])
     blocked_units = [u["fips"] for u in units if u["blocklisted"]]
-    rep, non, unx = data.get_units(thr, lo, hi, blocked_units, ["BB"], False, False, 2.0, ["postal_code", "county_fips", "unit"])
+    flagged = {"turnout_factor": set(), "results_normalized_margin": set()}
+    fit_t, fit_m = bool(case.get("fit_turnout")), bool(case.get("fit_margin"))
+    if case["kind"] == "outlier":
+        data.n_minimum_for_outlier_detection_model = 0
+        for ui, u in enumerate(units):
+            for resp in flagged:
+                if ui == 0:
+                    if ctx.choose("flag_%s_%s" % (resp[:4], u["fips"]), 2):
+                        flagged[resp].add(u["fips"])
+                elif resp == "results_normalized_margin":
+                    flagged[resp].add(u["fips"])  # the second unit is always flagged by the margin model only
+
+        def fake_outlier_model(reporting_units, response_variable, outlier_z_threshold):
+            return reporting_units[reporting_units["geographic_unit_fips"].isin(flagged[response_variable])].copy()
+
+        data._fit_outlier_detection_model = fake_outlier_model
+    rep, non, unx = data.get_units(thr, lo, hi, blocked_units, ["BB"], fit_m, fit_t, 2.0, ["postal_code", "county_fips", "unit"])
     frames = {"reporting": rep, "nonreporting": non, "passed-through": unx}
     where = {}
     for nm, fr in frames.items():
@@ -119,6 +144,12 @@ def run(ctx, case):
     for u in units:
         f = u["fips"]
         want_frame, want_cat, vals = expected(u, case["policy"], thr, lo, hi, margin, parties)
+        if want_frame == "reporting" and case["kind"] == "outlier":
+            # an eligible reporting unit can still be flagged by an enabled outlier model (turnout model first)
+            if fit_t and f in flagged["turnout_factor"]:
+                want_frame, want_cat = "passed-through", "non-modeled: strange turnout factor modeled"
+            elif fit_m and margin and f in flagged["results_normalized_margin"]:
+                want_frame, want_cat = "passed-through", "non-modeled: strange margin change modeled"
         got = where.get(f, [])
         if want_frame is None:
             obl.append(("unit %s (not in feed, drop policy) is in no frame" % f, got == []))
